@@ -568,7 +568,7 @@ def totality_templates(tier, seed=0):
 _RESULT_CLASSES = None
 
 
-def _total_case(tmpl, exact):
+def _total_case(tmpl, exact, tz_none=False):
     class case:
         options = {"may_raise": (ValueError,)}
 
@@ -577,7 +577,10 @@ def _total_case(tmpl, exact):
 
         def args(F):
             text, cons = template_text(F, tmpl)
-            return dict(text=text, exact=exact), cons
+            a = dict(text=text, exact=exact)
+            if tz_none:
+                a["tz"] = None
+            return a, cons
 
         def result(F, text, **options):
             raise NotImplementedError
@@ -596,7 +599,7 @@ def _total_case(tmpl, exact):
 
             fn, _ = resolve("pendulum.parser.parse")
             try:
-                r = fn(text, exact=exact)
+                r = fn(text, exact=exact, **({"tz": None} if tz_none else {}))
                 obs, bad = repr(r), not isinstance(r, (_pd.DateTime, _pd.Date, _pd.Time, _pd.Duration, _pd.Interval))
             except ValueError as e:
                 obs, bad = f"raised {type(e).__name__}: {e}", False
@@ -606,7 +609,7 @@ def _total_case(tmpl, exact):
                     "expected": "a DateTime/Date/Time/Duration/Interval, or a ValueError", "failed_clauses": [o.id.split("#")[1].split("@")[0]] if bad else [],
                     "detail": "an exception other than ValueError escapes" if bad else "on this input the real function stays within the contract"}
 
-    case.__name__ = f"{tmpl!r}" + (",exact" if exact else "")
+    case.__name__ = f"{tmpl!r}" + (",exact" if exact else "") + (",tz=None" if tz_none else "")
     return case
 
 
@@ -618,6 +621,14 @@ def _total_cases():
         out[c.__name__] = c
     for t in SEED_TEMPLATES:
         c = _total_case(t, True)
+        out[c.__name__] = c
+    # tz=None (naive results): date-times and the interval forms, where naive and aware endpoints can meet
+    for t in SEED_TEMPLATES:
+        if "/" in t or ("T" in t and t[:1] == "#"):
+            c = _total_case(t, False, tz_none=True)
+            out[c.__name__] = c
+    for t in ("####-##-##T##:##:##Z/####-##-##T##:##:##", "####-##-##T##:##:##/####-##-##T##:##:##+##:##", "####-##-##/####-##-##T##:##:##Z", "####-##-##T##:##:##/P#D"):
+        c = _total_case(t, False, tz_none=True)
         out[c.__name__] = c
     return out
 
